@@ -509,6 +509,9 @@ func (m *Machine) builtin(fr *frame, b *ssa.Builtin, args []Value, call *ssa.Cal
 		vals := SliceElems(add)
 		if s.Arr != nil && s.Len+add.Len <= s.Cap {
 			for i, v := range vals {
+				if m.OnStore != nil {
+					m.OnStore(s.Arr.Elems[s.Off+s.Len+i], call.Pos(), fr.fn)
+				}
 				storeCell(s.Arr.Elems[s.Off+s.Len+i], v)
 			}
 			return SliceV{Arr: s.Arr, Off: s.Off, Len: s.Len + add.Len, Cap: s.Cap}
@@ -530,6 +533,9 @@ func (m *Machine) builtin(fr *frame, b *ssa.Builtin, args []Value, call *ssa.Cal
 		}
 		vals := SliceElems(src)
 		for i := 0; i < n; i++ {
+			if m.OnStore != nil {
+				m.OnStore(dst.Arr.Elems[dst.Off+i], call.Pos(), fr.fn)
+			}
 			storeCell(dst.Arr.Elems[dst.Off+i], vals[i])
 		}
 		return IntC(int64(n))
